@@ -90,18 +90,21 @@ pub fn kind_desc(kid: u8) -> (u8, u32, u32) {
         20 => (0, 64, 8), // Bv512
         21 => (0, 8, 9),
         22 => (0, 64, 40), // wider than any alias: 2560 bits
-        _ => (0, 8, 0), // 23: the degenerate zero-word type Bvf<u8,0>, only in dedicated cases
+        23 => (0, 16, 7),
+        24 => (0, 8, 11),
+        25 => (0, 8, 300), // more than 255 words
+        _ => (0, 8, 0), // 26: the degenerate zero-word type Bvf<u8,0>, only in dedicated cases
     }
 }
 
-pub const NKINDS: u8 = 23;
+pub const NKINDS: u8 = 26;
 pub const KD: u8 = 14;
 pub const KA: u8 = 15;
 
 pub fn kind_is_fixed(kid: u8) -> bool {
     kid < 14 || kid >= 16
 }
-pub const KZ: u8 = 23; // Bvf<u8,0>
+pub const KZ: u8 = 26; // Bvf<u8,0>
 pub fn fixed_kinds() -> Vec<u8> {
     (0..NKINDS).filter(|k| kind_is_fixed(*k)).collect()
 }
